@@ -23,7 +23,7 @@ def run(tier, seed):
     R = fw.Runner(O) if br.runner_ok else None
     quick = tier == "quick"
 
-    def one(kind, val, wellformed=None):
+    def one(kind, val, wellformed=None, model=True):
         """kind: 'auth' | 'reg'; val: str (text) or python JSON value (dict form)"""
         f = impl.parse_auth_cred if kind == "auth" else impl.parse_reg_cred
         il = f(val)
@@ -55,7 +55,7 @@ def run(tier, seed):
                 chk.violation(f"credential without required member(s) {missing} accepted", f"{kind}-missing-member-accepted {missing[0]}", rp)
         if wellformed is not None and il != "OK " + wellformed:
             chk.violation("well-formed credential not decoded faithfully", f"{kind}-unfaithful", dict(rp, expected="OK " + wellformed))
-        if R:
+        if R and model:
             try:
                 w = ("T " + fw.ws(val)) if as_text else ("D " + json_to_wire(val))
             except Exception:
@@ -172,6 +172,29 @@ def run(tier, seed):
             b2 = one(kind, json.loads(t))
             if a != b2:
                 chk.violation("JSON text with a repeated member name is parsed differently from the value json.loads gives for it", f"{kind}-duplicate-member-name", {"entry": f"parse_{kind}_credential_json", "input": t, "impl": a, "dict_form": b2})
+    # 1f. nothing here has a size limit: long texts (padding, a large ignored member, large binary members) and long transport lists decode like short ones
+    for kind, base in (("auth", {"id": "AQ", "rawId": "AQ", "type": "public-key", "response": {"clientDataJSON": "e30", "authenticatorData": "AAAA", "signature": "c2ln", "userHandle": "dWg"}}),
+                       ("reg", {"id": "AQ", "rawId": "AQ", "type": "public-key", "response": {"clientDataJSON": "e30", "attestationObject": "o2NmbXQ", "transports": ["usb", "nfc"]}})):
+        ref = one(kind, base)
+        for n in fw.size_ladder():
+            small = n <= 70000
+            big_member = dict(base, clientExtensionResults={"ignored": "x" * n})
+            big_bin = copy.deepcopy(base); big_bin["response"]["clientDataJSON"] = authsim.b64u(b"{" + b" " * n + b"}")
+            ref_bin = one(kind, big_bin, model=small)
+            for what, t, want in (("whitespace-padded text", json.dumps(base) + " " * n, ref), ("text with leading whitespace", " " * n + json.dumps(base), ref),
+                                  ("text with a large ignored member", json.dumps(big_member), ref), ("dict with a large ignored member", big_member, ref),
+                                  ("text with a large binary member", json.dumps(big_bin), ref_bin)):
+                il = one(kind, t, model=small)
+                if il != want:
+                    chk.violation(f"{what} of {n} characters is parsed differently from the same credential in short / dict form", f"{kind}-size-dependent {what}",
+                                  {"entry": f"parse_{kind}_credential_json", "size": n, "what": what, "impl": il[:200], "reference": want[:200], "base": base})
+    for n in fw.size_ladder(cap=70000):
+        for lst, keep in ((["usb"] * n + ["nfc"], ["usb"] * n + ["nfc"]), (["bogus"] * n + ["internal", "hybrid"], ["internal", "hybrid"])):
+            d = {"id": "AQ", "rawId": "AQ", "type": "public-key", "response": {"clientDataJSON": "e30", "attestationObject": "o2NmbXQ", "transports": lst}}
+            il = one("reg", d, model=(n <= 1100))
+            want = "Y " + impl.wlist(fw.ws, keep)
+            if il.startswith("OK") and not il.endswith(want + " N"):
+                chk.violation(f"a transports list of {len(lst)} entries is not kept exactly (recognised values, in order)", "reg-size-dependent transports", {"entry": "parse_registration_credential_json", "count": len(lst), "impl": il[-200:], "expected_tail": want[-200:]})
     # 2. member-wise mutation stream, both parsers, both forms
     base_a = {"id": "AQ", "rawId": "AQ", "type": "public-key", "authenticatorAttachment": "platform",
               "response": {"clientDataJSON": "e30", "authenticatorData": "AAAA", "signature": "c2ln", "userHandle": "dWg"}}
